@@ -17,7 +17,7 @@ import (
 // the pooled scratch buffers (MemPoolNoLimit.Get(8192) allocates twice the requested size).
 var payloadSizes = []int{0, 1, 7, 100, 4095, 4096, 4097, 8191, 8192, 8193, 16300, 16350, 16383, 16384, 16385, 20000, 32767, 70000, 300000}
 
-var payloadKinds = []string{"zeros", "text", "incompressible"}
+var payloadKinds = []string{"zeros", "text", "incompressible", "mixed"}
 
 // rawSession is one open / WriteBlocks* / Close session against the raw day-directory writer.
 type rawSession struct {
@@ -72,7 +72,12 @@ func genPayload(t *sim.Tape, big bool) ([]byte, string) {
 	if !big && n > 20000 {
 		n = 20000
 	}
-	kind := t.Draw(3)
+	kind := t.Draw(4)
+	if kind == 3 {
+		// an incompressible first half followed by a compressible second half: the block stays
+		// compressed as a whole, but its first part is stored raw inside the compressed frame
+		return append(t.Bytes(n/2, 2), t.Bytes(n-n/2, 1)...), fmt.Sprintf("%s:%d", payloadKinds[kind], n)
+	}
 	return t.Bytes(n, kind), fmt.Sprintf("%s:%d", payloadKinds[kind], n)
 }
 
